@@ -1623,6 +1623,11 @@ func (x *FnExec) mapLen(st *State, mt *types.Map, m *Term) *Term {
 	r := x.tc.Ite(x.tc.Eq(m, x.refConst(0)), x.refConst(0), c)
 	if !r.bound {
 		x.addFact(x.tc.And(x.intLe(x.refConst(0), c), x.intLe(c, x.intConstSort(1<<48, x.refSort()))))
+		// an empty map has no keys
+		dom, _, _, ks, _ := x.mapHeaps(st, mt)
+		bk := x.tc.BVar("k", ks)
+		domArr := x.tc.Select(st.getHeap(dom, SArr(rs, SArr(ks, SBool))), m)
+		x.addFact(x.tc.Implies(x.tc.Eq(c, x.refConst(0)), x.tc.Forall([]*Term{bk}, x.tc.Not(x.tc.Select(domArr, bk)))))
 	}
 	return r
 }
